@@ -140,7 +140,7 @@ fn plans(cli: &Cli, prop: Prop) -> Vec<Plan> {
                 let v = vec!["xfer", "dblspend", "dep", "call_ok", "call_rvrt", "call_tro", "create", "call_c3", "msgdata_rvrt", "msgdata_ok", "msg_early", "msg_relayed", "expiring", "noout", "missing", "call_smo", "upgrade_cp"];
                 v
             } else {
-                vec!["xfer", "dblspend", "dep", "call_ok", "call_rvrt", "create", "call_c3", "msgdata_rvrt", "msgdata_ok", "msg_relayed", "expiring", "noout", "upgrade_cp"]
+                vec!["xfer", "dblspend", "dep", "call_ok", "call_rvrt", "create", "call_c3", "msgdata_rvrt", "msgdata_ok", "msg_relayed", "expiring", "noout", "upgrade_cp", "create_empty", "read_empty", "slot_empty_a", "slot_empty_b"]
             };
             let core = t(&u, &core_names);
             let deep_lists = if thorough { lists(&core, 2) } else { lists(&core, 1) };
